@@ -2,7 +2,7 @@ import os, sys, itertools, re, json
 from vf import Check, Stream, first_diff, build_harness, build_libnstd, sh, VERIF, BUILD, REPO, log
 
 NV = 6
-FLAVS = ('str', 'var', 'ptr')
+FLAVS = ('str', 'var', 'ptr', 'xml')
 
 
 def applicable(f):
@@ -84,19 +84,140 @@ def small_alphabet(f, nv):
     return al
 
 
+# ---- concurrent cases ---------------------------------------------------------------------------
+def gen_thread_prog(rng, f, nv, own, n, valid=0.95):
+    """program of one thread over its own variables 0..nv-1, the first `own` of which hold the common payload"""
+    live = [i < own for i in range(nv)]
+    ops = []
+    kinds = ['copy', 'assign', 'drop', 'read'] + (['swap'] if f == 'ptr' else ['write', 'write'])
+    w = {'copy': 4, 'assign': 3, 'drop': 3, 'read': 2, 'swap': 2, 'write': 4}
+    for _ in range(n):
+        k = rng.choices(kinds, [w[x] for x in kinds])[0]
+        lv = [i for i in range(nv) if live[i]]
+        dv = [i for i in range(nv) if not live[i]]
+        if rng.random() > valid:
+            a, b = rng.randrange(nv + 1), rng.randrange(nv + 1)
+        elif k == 'copy':
+            if not lv or not dv:
+                continue
+            a, b = rng.choice(dv), rng.choice(lv)
+        elif k in ('assign', 'swap'):
+            if not lv:
+                continue
+            a, b = rng.choice(lv), rng.choice(lv)
+        else:
+            if not lv:
+                continue
+            a = b = rng.choice(lv)
+        if k == 'copy':
+            ops.append('copy %d %d' % (a, b))
+            if a < nv and b < nv and not live[a] and live[b]:
+                live[a] = True
+        elif k in ('assign', 'swap'):
+            ops.append('%s %d %d' % (k, a, b))
+        elif k == 'drop':
+            ops.append('drop %d' % a)
+            if a < nv:
+                live[a] = False
+        elif k == 'write':
+            ops.append('write %d%s' % (a, ' force' if f == 'str' and rng.random() < 0.25 else ''))
+        else:
+            ops.append('read %d' % a)
+    return ops
+
+
+def gen_schedule(rng, nth, npoints, style):
+    if style == 'uniform':
+        return [rng.randrange(nth) for _ in range(npoints)]
+    if style == 'bursty':
+        s = []
+        while len(s) < npoints:
+            s += [rng.randrange(nth)] * rng.randrange(1, 7)
+        return s
+    # few preemptions: run threads in a random order, switch at a few random points
+    order = list(range(nth))
+    rng.shuffle(order)
+    s = []
+    for t in order:
+        s += [t] * (npoints // nth + 1)
+    for _ in range(rng.randrange(1, 4)):
+        i = rng.randrange(len(s))
+        s[i:i] = [rng.randrange(nth)] * rng.randrange(1, 4)
+    return s
+
+
+def gen_conc(rng, f, free=False):
+    nth = rng.choice([2, 2, 3, 3, 4])
+    nv = rng.choice([2, 3, 3, 4, 5])
+    owns = [rng.choice([1, 1, 1, 2, 0]) for _ in range(nth)]
+    if sum(owns) == 0:
+        owns[0] = 1
+    case = ['@c' + f, 'init %d %d %s' % (rng.choice([0, 1, 2, 3, 5, 8]), nv, ' '.join(map(str, owns)))]
+    total = 0
+    for t in range(nth):
+        p = gen_thread_prog(rng, f, nv, owns[t], rng.randrange(1, 11))
+        total += len(p)
+        case += ['t %d %s' % (t, o) for o in p]
+    if free:
+        case.append('free %d' % rng.choice([2, 3, 5]))
+    else:
+        for _ in range(rng.choice([1, 2, 3])):
+            s = gen_schedule(rng, nth, 4 * total + 4, rng.choice(['uniform', 'bursty', 'preempt']))
+            case.append('go ' + ' '.join(map(str, s)))
+    return case
+
+
+CONC_UNITS = {   # the building blocks of the exhaustive scope (variable 0 holds the payload)
+    'write': ['write 0'], 'drop': ['drop 0'], 'copydrop': ['copy 1 0', 'drop 0'], 'self': ['assign 0 0'],
+    'writedrop': ['write 0', 'drop 0'], 'copywrite': ['copy 1 0', 'write 1'], 'read': ['read 0', 'drop 0'],
+    'assign2': ['copy 1 0', 'write 1', 'assign 0 1'], 'force': ['write 0 force', 'drop 0'],
+}
+
+
+def conc_exhaustive(f, depth):
+    """two threads, one handle each to the common payload, every pair of unit programs, every schedule in {0,1}^depth"""
+    cases = []
+    units = [u for u in CONC_UNITS if not (f == 'ptr' and ('write' in u or u in ('force', 'assign2')))]
+    scheds = [' '.join(map(str, s)) for s in itertools.product((0, 1), repeat=depth)]
+    for a in units:
+        for b in units:
+            case = ['@c' + f, 'init 3 2 1 1'] + ['t 0 ' + o for o in CONC_UNITS[a]] + ['t 1 ' + o for o in CONC_UNITS[b]]
+            case += ['go ' + s for s in scheds]
+            cases.append(case)
+    return cases
+
+
 class C09(Check):
     id = 'C09'
     comp = 'Rc'
     extracted = ['coq/Rc/model.mli', 'coq/Rc/model.ml', 'ocaml/zconv.ml', 'ocaml/rc_driver.ml']
     harness_sources = ['harness/rc.cpp']
-    per_case_timeout = 10
-    level_text = ''
-    level_note = ''
-    technique = 'machine-checked proof (Coq 8.16) about an executable model + differential correspondence (ASan/UBSan) + TSan stress as search'
-    rule = ('cases = handle histories (create/null/copy/fromraw/assign/reset/swap/write/detach/destroy) on 6 variables of one '
-            'handle type (String, Variant holding a list, RefCount::Ptr<T>); a case is non-trivial when some payload was shared by '
-            'two live variables (a reference counter of 2 or more was observed) and at least one payload was released; distinct = distinct op text')
-    assumptions = []
+    per_case_timeout = 20
+    level_text = ('Proved in Coq for the model: (sequential) for every history of create/null/copy/fromraw/assign/reset/swap/write/detach/destroy '
+                  'on String, Variant, RefCount::Ptr and Xml::Variant handles the counter of a payload equals the number of live handles referring to it, '
+                  'a payload is released exactly once, exactly when its last handle goes, never accessed afterwards and modified in place only while '
+                  'exactly one handle refers to it; (concurrent) the same for EVERY schedule of the interleaving machine in which threads owning '
+                  'distinct handles to a common payload copy, assign, swap, modify, read and drop them, each call split into its atomic '
+                  'increment / decrement-and-test / plain read `ref == 1` accesses, plus completion: every schedule that lets each thread finish '
+                  'ends with released <-> no handle left.')
+    level_note = ('partial: the concurrent clause is proved for the interleaving model under sequential consistency with the __sync builtins as '
+                  'atomic steps (hardware/compiler memory ordering is outside the model) and is validated on the implementation only on the '
+                  'schedules actually run: baton-passing real threads switched at the scheduling points placed before and after every atomic '
+                  'operation (schedules generated, 2-thread scope exhaustive up to the stated depth) and free-running real threads on the schedules '
+                  'the OS produced, all under ASan/UBSan; TSan was not used. Validated by correspondence only (no theorem): the values read through '
+                  'the handles (copies are independent) against the value-semantics Spec; nested Variant payloads (handles inside payloads) are '
+                  'not modelled; String/Variant constructors from literals (uncounted inline data) are outside the model.')
+    technique = ('machine-checked proof (Coq 8.16) about an executable model (sequential handle/block machine + interleaving machine) + differential '
+                 'correspondence (ASan/UBSan): sequential histories op by op, concurrent scenarios with real threads under a baton-passing scheduler '
+                 'hooked at every atomic operation and free-running')
+    rule = ('sequential cases = handle histories (create/null/copy/fromraw/assign/reset/swap/write/detach/destroy) on 6 variables of one '
+            'handle type (String, Variant holding a list, RefCount::Ptr<T>, Xml::Variant holding an element); non-trivial when some payload was shared by '
+            'two live variables (a reference counter of 2 or more was observed) and at least one payload was released. '
+            'concurrent cases = 2-4 threads owning 0-2 handles each to one common payload, programs of copy/assign/drop/write/read/swap over their own '
+            'variables, 1-3 explicit schedules (`go`) or free runs; non-trivial when at least two threads execute a counting call (copy, assign, drop, write). '
+            'distinct = distinct op text')
+    assumptions = ['sequential consistency of the __sync_* builtins and of the plain reads of `ref` (concurrent clause)',
+                   'operator new / delete[] behave as allocation and release of disjoint blocks']
 
     # ---- oracle -------------------------------------------------------------------------------
     def judge(self, cases, impl_obs, spec_obs):
@@ -108,8 +229,11 @@ class C09(Check):
             for k, line in enumerate(obs):
                 if line.startswith('!') or line.startswith('?'):
                     continue
+                if 'DIFFERENT-RUNS' in line or 'BADCANARY' in line:
+                    fails.append((i, k, 'runs of the same threads disagree or a destroyed object was read: `%s`' % line[:300]))
+                    break
                 sec = line.split(' | ')
-                m = re.match(r'live=(-?\d+) dtors=(-?\d+)', sec[1]) if len(sec) > 1 else None
+                m = re.match(r'live=(-?\d+)( dtors=(-?\d+))?$', sec[1]) if len(sec) > 1 else None
                 if not m:
                     continue
                 livecnt = int(m.group(1))
@@ -120,14 +244,24 @@ class C09(Check):
                     continue
                 if len(sec) < 3:
                     continue
-                classes = {c for c in sec[2].split(' ') if c != '.'}
+                classes = {c for c in sec[2].split(' ') if c not in ('.', ';')}
                 if livecnt != len(classes):
                     fails.append((i, k, 'live payload blocks (%d) differ from the number of distinct payloads the live handles refer to (%d): `%s`'
                                   % (livecnt, len(classes), line)))
                     break
+                if len(sec) >= 5 and sec[4].startswith('after=') and sec[4] != 'after=0':
+                    fails.append((i, k, 'payload blocks still allocated after every thread handle was destroyed: %s' % sec[4]))
+                    break
         return fails
 
     def nontrivial(self, case, obs):
+        if case and case[0].startswith('@c'):
+            counting = set()
+            for l in case:
+                t = l.split()
+                if len(t) >= 3 and t[0] == 't' and t[2] in ('copy', 'assign', 'drop', 'write'):
+                    counting.add(t[1])
+            return len(counting) >= 2
         shared = False
         released = False
         for line in obs:
@@ -144,14 +278,14 @@ class C09(Check):
         thorough = tier == 'thorough'
         out = []
         for f in FLAVS:
-            cases = [gen_history(rng, f, rng.randrange(4, 45)) for _ in range(2500 if thorough else 500)]
+            cases = [gen_history(rng, f, rng.randrange(4, 45)) for _ in range(2500 if thorough else 400)]
             out.append(Stream('hist_' + f, cases, note='mostly valid random histories, 6 variables'))
         cases = [gen_history(rng, rng.choice(FLAVS), rng.randrange(4, 30), valid=0.5) for _ in range(1500 if thorough else 300)]
         out.append(Stream('malformed', cases, note='half of the ops ignore which variables are constructed (both sides skip them)'))
         # boundary: few variables so that counts go up and down through 1 and 2 all the time
         cases = []
         for f in FLAVS:
-            for _ in range(1500 if thorough else 300):
+            for _ in range(1500 if thorough else 250):
                 cases.append(gen_history(rng, f, rng.randrange(6, 30), nv=rng.choice([2, 3]), valid=0.97))
         cases += self.targeted()
         out.append(Stream('boundary', cases, note='2-3 variables; targeted: self assignment, assignment of null, capacity boundary, swap then destroy'))
@@ -164,6 +298,20 @@ class C09(Check):
                 cases.append(['@' + f, 'create 0 3'] + list(tup))
             out.append(Stream('exh_' + f, cases, exhaustive=False,
                               note='every sequence of %d ops over 2 variables after `create 0 3` (%d-letter alphabet)' % (depth, len(al))))
+        # concurrent: explicit schedules (baton passing at every atomic operation)
+        for f in FLAVS:
+            cases = [gen_conc(rng, f) for _ in range(1500 if thorough else 250)]
+            out.append(Stream('conc_' + f, cases, note='2-4 real threads, 1-3 generated schedules each (uniform, bursty, few preemptions)'))
+        cases = self.conc_targeted(rng, 40 if thorough else 8)
+        out.append(Stream('conc_targeted', cases, note='all threads write the common payload at once; drop racing write; copy racing drop; self assignment; random schedules'))
+        depth = 10 if thorough else 7
+        cases = []
+        for f in (FLAVS if thorough else ('str', 'ptr')):
+            cases += conc_exhaustive(f, depth)
+        out.append(Stream('conc_exh', cases, note='2 threads x 1 handle, every pair of unit programs, every schedule in {0,1}^%d then to completion' % depth))
+        # free-running threads
+        cases = [gen_conc(rng, rng.choice(FLAVS), free=True) for _ in range(1200 if thorough else 200)]
+        out.append(Stream('conc_free', cases, note='same scenarios, threads released together and left to the OS scheduler, 2-5 repetitions each'))
         return out
 
     def targeted(self):
@@ -175,11 +323,36 @@ class C09(Check):
         for n in (0, 1, 2, 3, 4, 7, 8):
             t.append(['@str', 'create 0 %d' % n, 'write 0', 'write 0', 'copy 1 0', 'write 1', 'write 0', 'detach 1', 'write 0', 'write 0', 'write 0', 'write 0'])
             t.append(['@var', 'create 0 %d' % n, 'write 0', 'copy 1 0', 'detach 1', 'write 0', 'copy 2 1', 'write 2', 'write 1'])
+            t.append(['@xml', 'create 0 %d' % n, 'write 0', 'copy 1 0', 'detach 1', 'write 0', 'copy 2 1', 'write 2', 'write 1', 'assign 2 2', 'assign 1 2'])
         t.append(['@str', 'null 0', 'write 0', 'null 1', 'detach 1', 'copy 2 1', 'reset 1', 'reset 2', 'assign 0 1'])
         t.append(['@var', 'null 0', 'write 0', 'null 1', 'detach 1', 'copy 2 1', 'reset 1', 'assign 0 1'])
+        t.append(['@xml', 'null 0', 'write 0', 'null 1', 'detach 1', 'copy 2 1', 'reset 1', 'assign 0 1', 'assign 0 0'])
         t.append(['@ptr', 'create 0 1', 'create 1 2', 'swap 0 1', 'destroy 0', 'copy 2 1', 'destroy 1', 'destroy 2'])
         t.append(['@ptr', 'create 0 1', 'fromraw 1 0', 'fromraw 2 1', 'destroy 0', 'destroy 1', 'copy 3 2', 'reset 2'])
         t.append(['@ptr', 'create 0 1', 'null 1', 'swap 0 1', 'fromraw 2 1', 'destroy 1', 'destroy 0'])
+        return t
+
+    def conc_targeted(self, rng, nsched):
+        t = []
+        for f in FLAVS:
+            w = 'read 0' if f == 'ptr' else 'write 0'
+            fams = [
+                [[w], [w], [w]],                                              # detach at ref = number of threads
+                [['drop 0'], ['drop 0'], ['drop 0']],                         # who releases?
+                [[w, 'drop 0'], ['drop 0'], ['copy 1 0', 'drop 0', 'drop 1']],
+                [['copy 1 0', 'drop 1', 'copy 1 0', 'drop 1', 'drop 0'], ['assign 0 0', w, 'drop 0']],
+                [['copy 1 0', w, 'assign 0 1', 'drop 1', 'drop 0'], [w, w, 'copy 1 0', 'assign 1 0', 'drop 0', 'drop 1']],
+            ]
+            for progs in fams:
+                case = ['@c' + f, 'init 4 2 ' + ' '.join('1' for _ in progs)]
+                n = 0
+                for i, p in enumerate(progs):
+                    case += ['t %d %s' % (i, o) for o in p]
+                    n += len(p)
+                for _ in range(nsched):
+                    case.append('go ' + ' '.join(map(str, gen_schedule(rng, len(progs), 4 * n + 4, rng.choice(['uniform', 'bursty', 'preempt'])))))
+                case.append('free 3')
+                t.append(case)
         return t
 
 
